@@ -30,7 +30,8 @@ def main():
     run = Run("C13")
     run.rule = ("random module graphs (1-5 generic modules; None params/buffers, non-persistent buffers, plain tensor attributes, "
                 "tied tensors, shared and doubly-registered submodules) x parameter trees (subsets, same object, cross-kind, tied, shuffled, "
-                "malformed) x with-block programs (nesting <=3, raise direct / in a forward hook / in a pre-hook / after forward, try/except); "
+                "malformed) x with-block programs (nesting <=3, raise direct / in a forward hook / in a pre-hook / after forward, try/except, parameter tensordict alive or collected at exit) "
+                "+ inplace=True value runs + TensorDictParams op sequences + real-layer zoo; "
                 "a case is non-trivial if its (graph, tree/program) text is new and it has at least one tensor cell")
     run.trusted += [
         "Model/C13Module.lean is a hand transcription of _set_tensor_dict, _to_module (native __setattr__, return_swap=True, "
@@ -42,8 +43,11 @@ def main():
         "module graphs are acyclic (TensorDict._from_module itself does not terminate otherwise); the model answers `cycle` when a module is re-entered",
         "bodies of with-blocks do not re-register module attributes (forward passes and in-place value updates only)",
         "parameter-registration hooks (torch global) are empty; keys of a parameter tensordict that name a non-tensor attribute of the module are outside the model",
-        "inplace=True, use_state_dict=True, custom __setattr__ (torch swap_tensor path), lazy parameters, TensorDictParams/TensorDictModule wrappers, vmap-batched parameters: "
+        "inplace=True: identities and values are modelled (Model/C13Inplace.lean: same traversal, registry untouched, clone/copy_ on values); "
+        "use_state_dict=True, custom __setattr__ (torch swap_tensor path), lazy parameters, TensorDictModule wrappers, a TensorDictParams inside the module tree, vmap-batched parameters: "
         "oracle only (identity / value snapshot before == after, output == functional_call), not in the Lean model",
+        "TensorDictParams: the registry (_reset_params) and the reset discipline of _unlock_and_set / update are modelled; what each operation does to the wrapped tensordict is an arbitrary function on the leaves in the model "
+        "(exercised by the oracle after every op; the discipline itself is re-read from the source with ast on every run)",
     ]
     run.build_and_audit(["TdVerif.Props.C13"])
     if run.tier == "thorough":
@@ -194,14 +198,50 @@ def main():
         else:
             run.oracle_ok("with_blocks")
 
+    # ------------------------------------------------------------------ harness self-test: a known mutation must be seen
+    # (DESIGN §5.3: a bug in the harness could hide a difference) — the pinned early return of __exit__ is monkey-patched in
+    # for a few raising programs; the identity oracle must notice, otherwise the run is an infrastructure failure.
+    import unittest.mock as mock
+    from tensordict.base import TensorDictBase
+    real_exit = TensorDictBase.__exit__
+
+    def old_exit(self, exc_type, exc_val, exc_tb):
+        if exc_type is not None and issubclass(exc_type, Exception):
+            return False
+        return real_exit(self, exc_type, exc_val, exc_tb)
+    seen = 0
+    with mock.patch.object(TensorDictBase, "__exit__", old_exit):
+        for c in corpus:
+            if c["stream"] != "with_blocks" or "raise" not in c["prog"]:
+                continue
+            graph = G.graph_from_sx(c["graph"])
+            prog = G.prog_from_sx(c["prog"], graph["kinds"])
+            world = G.World(graph["kinds"])
+            mods = G.build(graph, world)
+            before = G.id_snapshot(mods)
+            tds = [G.make_td(t, world) for t in G.prog_trees(prog)]
+            try:
+                G.run_prog(prog, mods, tds, [], x)
+            except Exception:  # noqa: BLE001
+                pass
+            seen += bool(G.diff_snap(before, G.id_snapshot(mods)))
+    run.count("selftest.pinned_exit_detected", seen)
+    if not seen:
+        raise Infra("harness self-test: the pinned __exit__ (early return on exception) was not noticed by the identity oracle")
+
     # ------------------------------------------------------------------ stream 4: output inside the block == functional_call
     n_fun = 300 if quick else 3000
-    for it in range(n_fun):
-        graph = G.gen_graph(rng)
-        if any(k is None for md in graph["mods"] for _, k in md["kids"]):
-            pass
-        world = G.World(graph["kinds"])
-        tree = G.gen_tree(rng, graph, world, 0, per_cell={}, per_mod={})
+    for it in range(n_fun + 1):
+        if it == 0:
+            # the witness of the recorded finding, so that it is re-derived on every run: a submodule registered under two
+            # names and given two different sub-tensordicts
+            graph = G.graph_from_sx("(mods (mod (params) (buffers) (plain) (kids (a 1) (b 1))) (mod (params (w 1 p) (v 2 p)) (buffers) (plain) (kids)))")
+            tree = G.tree_from_sx("(td (a (node (w (leaf 10 t)))) (b (node (w (leaf 10 t)) (v (leaf 11 t)))))", graph["kinds"])
+            world = G.World(graph["kinds"])
+        else:
+            graph = G.gen_graph(rng)
+            world = G.World(graph["kinds"])
+            tree = G.gen_tree(rng, graph, world, 0, per_cell={}, per_mod={})
         mods = G.build(graph, world)
         td = G.make_td(tree, world)
         flat = {".".join(k) if isinstance(k, tuple) else k: v for k, v in td.items(True, True)}
